@@ -42,10 +42,13 @@ def main() -> int:
     ap.add_argument('--seeded', action='store_true')
     ap.add_argument('--jobs', type=int, default=16)
     ap.add_argument('--seed', type=int, default=0)
-    ap.add_argument('--all-checks', action='store_true', help='run every claimed check against each mutant')
+    ap.add_argument('--patch', default=None, help='a single patch file to test (with --check)')
+    ap.add_argument('--check', default=None, help='comma-separated check ids to run against --patch')
     args = ap.parse_args()
     items = []
-    if args.seeded:
+    if args.patch:
+        items = [(c, os.path.abspath(args.patch)) for c in args.check.split(',')]
+    elif args.seeded:
         for meta in sorted(glob.glob(os.path.join(VERIF, 'seeded', '*', 'meta.json'))):
             m = json.load(open(meta))
             items.append((m['property'], os.path.join(os.path.dirname(meta), 'patch.diff')))
